@@ -45,7 +45,7 @@ ASSUMPTIONS = [
     "hostile absolute paths and traversals stay inside the scratch area (the harness must not touch the real file system)",
     "allowed resource directories: <repo>/pdfminer/cmap and the directory named by CMAP_PATH",
 ]
-PROBES = ["LTImage objects of one layout exported by two writers", "site:encoding-name", "site:cmapname-stream", "site:usecmap", "site:registry-ordering", "site:image-name", "site:image-attr", "name:dotdot", "name:absolute", "name:nul", "name:long", "name:existing-file", "name:separator", "name:sibling-prefix", "name:lookalike", "state:CMAP_PATH unset", "image:oversize", "state:long run of occupied names", "state:outdir-absent", "state:outdir-nested", "state:preexisting-image-name", "second export in the same process", "image exported", "bait file present at traversal target"]
+PROBES = ["LTImage objects of one layout exported by two writers", "site:encoding-name", "site:cmapname-stream", "site:usecmap", "site:registry-ordering", "site:image-name", "site:image-attr", "site:image-colourspace-name", "name:dotdot", "name:absolute", "name:nul", "name:long", "name:existing-file", "name:separator", "name:sibling-prefix", "name:lookalike", "state:CMAP_PATH unset", "image:oversize", "state:long run of occupied names", "state:outdir-absent", "state:outdir-nested", "state:preexisting-image-name", "second export in the same process", "image exported", "bait file present at traversal target"]
 TIERS = {
     "quick": {"batches": 16, "runs": 500, "budget_s": 120},
     "thorough": {"batches": 128, "runs": 500, "budget_s": 900},
@@ -180,9 +180,16 @@ def build_document(t, ctx, fsroot):
                 cidinfo[b"Ordering"] = Str(nm)
         if site == "image-attr":
             # document-controlled strings other than the name that end up in the file name of a raw export
-            iname = t.pick([b".", b"..", b"x", b"a/b"], "attr.imgname")
+            iname = t.pick([b".", b"..", b"x", b"a/b", b""], "attr.imgname")
             w, h = 2, 2
-            img = docs.content_stream(b"00000000>", extra={b"Type": Name(b"XObject"), b"Subtype": Name(b"Image"), b"Width": w, b"Height": h, b"BitsPerComponent": Name(nm), b"ColorSpace": Name(b"DeviceGray"), b"Filter": [Name(b"ASCIIHexDecode")]})
+            if t.coin(50, 100, "attr.which"):
+                img = docs.content_stream(b"00000000>", extra={b"Type": Name(b"XObject"), b"Subtype": Name(b"Image"), b"Width": w, b"Height": h, b"BitsPerComponent": Name(nm), b"ColorSpace": Name(b"DeviceGray"), b"Filter": [Name(b"ASCIIHexDecode")]})
+            else:
+                # the colour space name (a name of the document's choosing when it refers to a resource) of an image that is
+                # dumped raw; also with a leading separator, as the second half of a traversal the image name begins
+                cs = t.pick([nm, b"/" + nm, b"/x", b"/../x", b"/../bait/evil"], "attr.csname")
+                img = docs.content_stream(b"00000000>", extra={b"Type": Name(b"XObject"), b"Subtype": Name(b"Image"), b"Width": w, b"Height": h, b"BitsPerComponent": 8, b"ColorSpace": Name(cs), b"Filter": [Name(b"ASCIIHexDecode")]})
+                ctx.probe("site:image-colourspace-name")
             xobjs[iname + b"%d" % i if iname in xobjs else iname] = alloc(img)
             content.append(b"q 10 0 0 10 %d 200 cm " % (20 * i) + pdf_name(iname) + b" Do Q")
             continue
